@@ -66,6 +66,7 @@ def generate(seed, mode):
     q_rate = w.choice([0.1, 0.3, 0.5])
     nops = w.randint(3, 18)
     fail_world = h64(seed, 'failing-dependent-world') % 3 == 0 and 'C02' in (mode.get('props') or ['C02'])
+    reenter_world = h64(seed, 'failing-dependent-world') % 3 == 1 and bool({'C02', 'C03'} & set(mode.get('props') or ['C02']))
     ops = []
     for _ in range(nops):
         k = o.getrandbits(30)
@@ -88,6 +89,13 @@ def generate(seed, mode):
             ops.append({'op': 'rebase_empty', 'n': o.randrange(64), 'k': k})
         elif r < q_rate + 0.24:
             ops.append({'op': 'reload', 'n': o.randrange(64), 'k': k})
+        elif r < q_rate + 0.30 and reenter_world:
+            # fault `cb-reenter` inside a re-basing: a dependent of the re-based specification re-bases something *above* it
+            # (one of its new bases, mostly) from inside the change notification
+            ops.append({'op': 'rebase_reenter', 'n': o.randrange(64),
+                        'bases': [o.randrange(64) for _ in range(o.choice([1, 1, 2, 2, 3]))],
+                        't': o.randrange(64), 'tnew': o.random() < 0.75, 'tbases': [o.randrange(64) for _ in range(o.choice([0, 1, 1, 2]))],
+                        'pos': o.randrange(64), 'k': k})
         elif r < q_rate + 0.30 and fail_world:
             # fault `cb-raise` inside a re-basing: a dependent of the re-based specification fails once while it is told
             ops.append({'op': 'rebase_fail', 'n': o.randrange(64),
@@ -977,6 +985,61 @@ def execute(program, ctx, mode):
             if deps:
                 ctx.probe('interface-reloaded-with-dependents')
             ctx.log(step, 'reload', s, s2, deps)
+        elif name == 'rebase_reenter':
+            L = live()
+            if not L or strict_env:
+                continue
+            s = L[op['n'] % len(L)]
+            pool = [l for l in L if kind[l] == 'I'] if kind[s] == 'I' else L
+            mb = list(resolve_bases(s, op['bases'], pool))
+            if kind[s] == 'I' and not mb:
+                mb = ['Interface']
+            old_s = list(bases_of[s])
+            bases_of[s] = mb                      # (what may be re-based above s is decided in the graph s will be in)
+            above = [x for x in L if x != s and s not in reach(bases_of, x) and kind[x] != 'fixed']
+            first = [x for x in mb if x in above]
+            tc = first if (first and op.get('tnew')) else above
+            if not tc:
+                bases_of[s] = old_s
+                continue
+            t = tc[op['t'] % len(tc)]
+            tpool = [l for l in L if kind[l] == 'I'] if kind[t] == 'I' else L
+            tb = [x for x in resolve_bases(t, op['tbases'], tpool) if x != s and s not in reach(bases_of, x)]
+            if kind[t] == 'I' and not tb:
+                tb = ['Interface']
+            bases_of[s] = old_s
+            done = []
+
+            class Rebaser:
+                def changed(self_, originally_changed):
+                    if not done:
+                        done.append(1)
+                        ctx.fault('cb-reenter-rebase-in-change-notification')
+                        node[t].__bases__ = tuple(node[b] for b in tb)
+            rb_ = Rebaser()
+            flakies.append(rb_)
+            node[s].subscribe(rb_)
+            d = node[s]._dependents
+            items = list(d.data.items())
+            if len(items) > 1:
+                it = items.pop()
+                items.insert(op['pos'] % (len(items) + 1), it)
+                d.data.clear()
+                d.data.update(items)
+            try:
+                node[s].__bases__ = tuple(node[b] for b in mb)
+            except (KeyError, RuntimeError, AttributeError, TypeError, ValueError, IndexError) as e:
+                ctx.violation('C02', 'rebase-raises', 'C02|rebase-raises|%s|re-entrant' % type(e).__name__, {'node': s, 'bases': mb, 't': t, 'tbases': tb})
+            bases_of[s] = mb
+            if done:
+                bases_of[t] = tb
+                ctx.probe('rebase-from-inside-a-change-notification')
+                if t in mb:
+                    ctx.probe('new-base-rebased-from-inside-the-notification')
+            propagated(s)
+            if done:
+                propagated(t)
+            ctx.log(step, 'rebase_reenter', s, mb, t, tb, len(done), [lab(x) for x in node[s].__sro__])
         elif name == 'rebase_fail':
             L = live()
             if not L or strict_env or 'C02' not in props:
